@@ -16,6 +16,14 @@ CHECKS = {
             "Trusts Python math.sqrt / IEEE arithmetic as reference; hedges taken from the HedgeFactory.", "§5 C05"),
 }
 
+CHECKS["C04"] = (
+    "exhaustive dyadic-grid enumeration + Hypothesis random doubles vs exact rational reference and norm laws",
+    "Exhaustive over all 16 registered norms on the k/64 pair grid and the k/16 (quick) / k/32 (thorough) triple grid "
+    "with an exact Fraction reference (formula, range, bounds, commutativity, identity, annihilator, duality, "
+    "associativity, monotonicity, scalar==array), plus Hypothesis doubles incl. neighbours of 0/1 and a+b next to 1.",
+    "Trusts fractions.Fraction; Nilpotent*/Drastic* laws on inexact random doubles follow the fragile-case rule of "
+    "DESIGN §4; one open known finding (HamacherSum cancellation near (1,1)).", "§5 C04")
+
 NOT_APPLICABLE = {}
 
 
